@@ -942,6 +942,42 @@ func c08RunCase(rt *rapid.T, rec *verifx.Recorder, env *c08Env, judge func(r *c0
 			pre = append(pre, c08Action{Kind: 12, Slot: 0}, c08Action{Kind: 9})
 			actions = append(pre, actions...)
 		}
+		if rapid.IntRange(0, 5).Draw(rt, "directedRepeatedListing") == 0 {
+			// One case in six opens with a transaction that lists the SAME range two or three times with different
+			// page limits (a full listing and a "first page again" look-up, in either order) and writes a key; a plain
+			// write then adds or removes one entry of that range before the commit. Whatever the transaction records
+			// for the later listing must not replace what it has to verify for the earlier, wider one.
+			pfx := rapid.IntRange(0, 1).Draw(rt, "dRLPrefix") // "" or "a/"
+			aft := []int{0, 2}[rapid.IntRange(0, 1).Draw(rt, "dRLAfter")]
+			pre := []c08Action{}
+			for k := range c08Keys {
+				if rapid.IntRange(0, 3).Draw(rt, "dRLPresent") > 0 {
+					pre = append(pre, c08Action{Kind: 0, Key: k, Val: 0})
+				}
+			}
+			pre = append(pre, c08Action{Kind: 9})
+			script := []c08Action{}
+			nl := rapid.IntRange(2, 3).Draw(rt, "dRLListings")
+			for i := 0; i < nl; i++ {
+				script = append(script, c08Action{Kind: 6, Pfx: pfx, After: aft, Limit: rapid.IntRange(0, len(c08Limits)-1).Draw(rt, "dRLLimit")})
+			}
+			script = append(script, c08Action{Kind: 4, Key: rapid.IntRange(0, len(c08Keys)-1).Draw(rt, "dRLOut"), Val: 1})
+			pre = append(pre, c08Action{Kind: 2, Slot: 0, Script: script})
+			for range script {
+				pre = append(pre, c08Action{Kind: 12, Slot: 0})
+			}
+			wk := rapid.IntRange(0, len(c08Keys)-1).Draw(rt, "dRLWritten")
+			if rapid.Bool().Draw(rt, "dRLDelete") {
+				pre = append(pre, c08Action{Kind: 1, Key: wk})
+			} else {
+				pre = append(pre, c08Action{Kind: 0, Key: wk, Val: 2})
+			}
+			if rapid.Bool().Draw(rt, "dRLQuiesceBeforeCommit") {
+				pre = append(pre, c08Action{Kind: 9})
+			}
+			pre = append(pre, c08Action{Kind: 12, Slot: 0}, c08Action{Kind: 9})
+			actions = append(pre, actions...)
+		}
 		env.caseNo++
 		r := &c08Run{rt: rt, env: env, b: env.b, prefix: fmt.Sprintf("c%d/", env.caseNo), caughtUpOnly: caughtUpOnly}
 		b := env.b
